@@ -5,3 +5,4 @@ import RedactVerif.Model.Utf8
 import RedactVerif.Model.Escape
 import RedactVerif.Model.Buffer
 import RedactVerif.Model.Writer
+import RedactVerif.Model.Format
